@@ -77,6 +77,14 @@ Theorem C07_terminates : forall rule reads pref n k bridging o,
 Proof. exact terminates. Qed.
 Print Assumptions C07_terminates.
 
+(* The theorems are not vacuous for any input: for all well-formed reads a legal oracle exists (pop the
+   undecided reads in index order) and the run is complete. *)
+Theorem C07_legal_oracle_exists : forall rule reads pref n k bridging,
+  wf_reads n reads = true ->
+  exists o r, readselection rule reads pref n k bridging o = inl r /\ r_complete r = true.
+Proof. exact legal_oracle_exists. Qed.
+Print Assumptions C07_legal_oracle_exists.
+
 (* Maximality (repaired rule, or no preferred reads): when the loops have finished, every read left
    out spans a variant that is already spanned by >= k selected reads, i.e. adding it would push that
    variant above k. *)
